@@ -147,3 +147,52 @@ def replay_param_node(name, model, max_tries=4000):
 if __name__ == "__main__":
     import json
     sys.exit(replay_param_node(sys.argv[1], json.loads(sys.argv[2]) if len(sys.argv) > 2 else {}))
+
+
+def _cfg_key(cfg):
+    out = []
+    for k, v in cfg.items():
+        if k == "initializer_":
+            continue
+        out.append((k, tuple(v) if isinstance(v, list) else v))
+    return tuple(out)
+
+
+def replay_fold_settings(name, model):
+    """C02: search two nodes of one torch class with equal fold_settings but different configuration (such nodes would be
+    folded together and the folded node rebuilt from the first one's configuration)."""
+    import cirkit.symbolic.parameters as SP
+    from cirkit.backend.torch.parameters.nodes import TorchTensorParameter
+    from cirkit.backend.torch.rules.parameters import DEFAULT_PARAMETER_COMPILATION_RULES as RULES
+    seen = {}
+    if name == "TensorParameter":
+        items = []
+        for shp in [(1,), (2,), (1, 2), (2, 2), (1, 1, 2)]:
+            for rg in (False, True):
+                for dt in (torch.float32, torch.float64, torch.int64, torch.complex64):
+                    items.append(TorchTensorParameter(*shp, requires_grad=rg, dtype=dt))
+        for t in items:
+            key = (type(t), t.fold_settings)
+            cfg = (tuple(t.shape), t.requires_grad, t.dtype)
+            if key in seen and seen[key] != cfg:
+                print(f"FAILING INPUT: tensors {seen[key]} and {cfg} have equal fold_settings {t.fold_settings}")
+                return 1
+            seen.setdefault(key, cfg)
+        print("no failing pair among", len(items), "tensors")
+        return 0
+    cls = getattr(SP, name)
+    n = 0
+    for args, kw in itertools.islice(candidates(name, model), 3000):
+        try:
+            p = cls(*args, **kw)
+        except (AssertionError, ValueError):
+            continue
+        t = RULES[cls](None, p)
+        n += 1
+        key, cfg = (type(t), t.fold_settings), _cfg_key(t.config)
+        if key in seen and seen[key] != cfg:
+            print(f"FAILING INPUT: two {type(t).__name__} nodes with configurations {seen[key]} and {cfg} have equal fold_settings {t.fold_settings}")
+            return 1
+        seen.setdefault(key, cfg)
+    print("no failing pair among", n, "nodes")
+    return 0
